@@ -61,6 +61,7 @@ class Block:
         self.blockarms = False
         self.qmark = False
         self.unless = {}
+        self.loop_optional = set()
         self.spec = []            # list of (text, tline)
         self.loops = {}           # n -> list of (text, tline)
         self.ats = []             # (anchor, where, nth, [(text,tline)])
@@ -108,7 +109,7 @@ def parse_template(path):
             pr = BT.findall(rest)
             kv, _ = parse_kv(BT.sub('', rest).replace('=>', ''))
             meta['gsubst'].append((pr[0], pr[1], kv.get('rule', 'S')))
-        elif word in ('fn', 'type', 'macro'):
+        elif word in ('fn', 'type', 'macro', 'decl'):
             if cur is not None:
                 raise TemplateError('%s:%d: nested block' % (path, i))
             kv, flags = parse_kv(rest)
@@ -155,6 +156,8 @@ def parse_template(path):
         elif word == 'loop':
             n = int(rest.split()[0])
             section = cur.loops.setdefault(n, [])
+            if 'optional' in rest.split()[1:]:
+                cur.loop_optional.add(n)
         elif word == 'entry':
             section = cur.entry
         elif word == 'stmt':
@@ -395,8 +398,9 @@ def extract_fn(repo, blk, meta, mode):
     if blk.nowhere and where:
         log.append(('R7', 'where clause dropped: %s' % where, src_line))
         where = ''
-    name = kv.get('as', kv['name'])
-    sigt = 'fn %s%s(%s)' % (name, generics, ', '.join(ptexts))
+    emitted = kv.get('as', kv['name'])
+    name = kv.get('id', emitted)      # reporting name (two impls of one trait method need distinct ids)
+    sigt = 'fn %s%s(%s)' % (emitted, generics, ', '.join(ptexts))
     if ret is not None and ret != '()':
         rn = kv.get('retname', 'r')
         sigt += ' -> (%s: %s)' % (rn, ret)
@@ -412,6 +416,9 @@ def extract_fn(repo, blk, meta, mode):
 
     for n, lines in blk.loops.items():
         if n >= len(loops):
+            if n in blk.loop_optional:
+                log.append(('S', 'loop #%d absent: its invariant is not emitted' % n, src_line))
+                continue
             raise X.LostAnchor('%s::%s: loop #%d not found (%d loops)' % (rel, kv['name'], n, len(loops)))
         add_insert(loops[n][1], lines, 'loopspec')
     for anchor, wherepos, nth, lines in blk.ats:
@@ -615,6 +622,17 @@ def generate(repo, template, mode=None):
             em.emit_lines([(ln, dict(kind='src', fn='macro ' + blk.kv['name'], file=blk.kv['file'], line=line0)) for ln in txt.split('\n')])
             types.append(dict(name='macro ' + blk.kv['name'], log=[('R10', 'local macro_rules! %s copied verbatim; expanded by rustc inside the verified function' % blk.kv['name'], line0)],
                               hash=X.sha(toks[hit[0]:hit[1] + 1]), file=blk.kv['file'], line=line0, lines=[]))
+            continue
+        if blk.kind == 'decl':
+            # a trait method declaration carrying the contract every impl is checked against
+            nm = blk.kv['name']
+            em.emit_lines([(blk.kv['sig'], dict(kind='sig', fn=nm, tline=blk.tline))])
+            for ln, tl in blk.spec:
+                em.emit_lines([(ln, dict(kind='spec', fn=nm, tline=tl, text=ln.strip()))])
+            em.emit_lines([(';', dict(kind='tmpl', tline=blk.tline))])
+            functions.append(dict(sig=blk.kv['sig'], body=[], log=[('R2', 'trait method declaration: contract stated once on the trait, each impl body is checked against it', 0)],
+                                  hash='', file='(trait declaration)', line=0, name=nm, nloops=0, has_canary=False,
+                                  clauses=count_clauses(blk.spec), tline=blk.tline))
             continue
         if blk.kind == 'type':
             r = extract_type(repo, blk, meta)
